@@ -208,13 +208,18 @@ func (c *Check) capabilityCodec(rule string) {
 			}
 			c.require(ok, rule, "capabilityOptionalParam.encode", fmt.Sprintf("empty=%v", empty), p.Pos(fn.Pos()), detail)
 		}
-		apps := 0
+		apps, own := 0, 0
 		for _, cl := range p.callsIn(fn, descIs("builtin:append")) {
 			if inLoop(cl.Block()) && everyIteration(cl.(ssa.Instruction)) {
 				apps++
+				if cl.Parent() == fn {
+					own++
+				}
 			}
 		}
-		c.require(apps == 1, rule, "capabilityOptionalParam.encode", "capabilities concatenated in order", p.Pos(fn.Pos()), "one append of capability.encode() per capability, in list order")
+		// one append in the loop itself, or the appends of a helper that
+		// extends the accumulator (code, length, then value)
+		c.require(apps >= 1 && own <= 1, rule, "capabilityOptionalParam.encode", "capabilities concatenated in order", p.Pos(fn.Pos()), "one append of capability.encode() per capability, in list order")
 	}
 	// capabilityOptionalParam.decode: Capability{Code: cursor[0], Value: cursor[2:2+l]}
 	if fn := p.Fn("capabilityOptionalParam.decode"); fn != nil {
